@@ -28,6 +28,23 @@ type Options struct {
 	LabelPrefixes []string // nil/empty = all labels checked
 	PanicIsViolation bool
 	Verbose     bool
+	IncTimeoutMs int   // timeout of the incremental solver before falling back to a fresh one-shot process
+	OnlyPrefix  string // development: run just this decision prefix
+	SMTLog      string
+}
+
+// ParsePrefix parses the output of DecStr.
+func ParsePrefix(s string) []Decision {
+	var out []Decision
+	for _, part := range strings.Split(s, ".") {
+		if part == "" {
+			continue
+		}
+		var v uint64
+		fmt.Sscanf(part[1:], "%d", &v)
+		out = append(out, Decision{Kind: part[0], Val: v})
+	}
+	return out
 }
 
 type Decision struct {
@@ -152,6 +169,7 @@ type Explorer struct {
 	Recovered   int
 	Stubs       map[string]int
 	HasInternalVars bool
+	FreshQueries int
 }
 
 func NewExplorer(p *Program, name string, fn *ssa.Function, opt Options) *Explorer {
@@ -164,6 +182,10 @@ func NewExplorer(p *Program, name string, fn *ssa.Function, opt Options) *Explor
 
 func (ex *Explorer) Explore() {
 	ex.work = [][]Decision{nil}
+	if ex.Opt.OnlyPrefix != "" {
+		ex.work = [][]Decision{ParsePrefix(ex.Opt.OnlyPrefix)}
+		ex.Opt.Workers = 1
+	}
 	var wg sync.WaitGroup
 	for i := 0; i < ex.Opt.Workers; i++ {
 		wg.Add(1)
@@ -209,6 +231,9 @@ func (ex *Explorer) done() {
 }
 
 func (ex *Explorer) push(p []Decision) {
+	if ex.Opt.OnlyPrefix != "" {
+		return
+	}
 	ex.mu.Lock()
 	ex.work = append(ex.work, p)
 	ex.cond.Signal()
@@ -216,7 +241,11 @@ func (ex *Explorer) push(p []Decision) {
 }
 
 func (ex *Explorer) worker(id int) {
-	sp, err := solver.Start(ex.Opt.SolverKind, ex.Opt.TimeoutMs)
+	inc := ex.Opt.IncTimeoutMs
+	if inc == 0 {
+		inc = 4000
+	}
+	sp, err := solver.Start(ex.Opt.SolverKind, inc)
 	if err != nil {
 		ex.mu.Lock()
 		ex.Inconcl = append(ex.Inconcl, "cannot start solver: "+err.Error())
@@ -225,8 +254,8 @@ func (ex *Explorer) worker(id int) {
 		ex.mu.Unlock()
 		return
 	}
-	if os.Getenv("VSYM_SMTLOG") != "" && id == 0 {
-		f, _ := os.Create(os.Getenv("VSYM_SMTLOG"))
+	if ex.Opt.SMTLog != "" && id == 0 {
+		f, _ := os.Create(ex.Opt.SMTLog)
 		sp.Log = f
 	}
 	defer func() {
@@ -361,31 +390,82 @@ func (r *Run) addPC(t *sym.Term) {
 
 // check decides satisfiability of pc ∧ extra.
 func (r *Run) check(extra *sym.Term) solver.Result {
-	if extra.IsFalse() {
-		return solver.Unsat
-	}
-	r.define(extra)
-	r.sp.Send("(push 1)")
-	r.sp.Send("(assert " + extra.SMTName() + ")")
-	res := r.sp.CheckSat()
-	r.sp.Send("(pop 1)")
+	_, res := r.query(extra, false)
 	return res
 }
 
 func (r *Run) modelFor(extra *sym.Term) (map[string]uint64, solver.Result) {
+	return r.query(extra, true)
+}
+
+// query asks the incremental solver first (short timeout); if that is
+// inconclusive the whole path condition is replayed into a fresh one-shot
+// solver process with the full timeout.
+func (r *Run) query(extra *sym.Term, wantModel bool) (map[string]uint64, solver.Result) {
+	if extra.IsFalse() {
+		return nil, solver.Unsat
+	}
 	r.define(extra)
 	r.sp.Send("(push 1)")
 	r.sp.Send("(assert " + extra.SMTName() + ")")
 	res := r.sp.CheckSat()
 	var m map[string]uint64
-	if res == solver.Sat {
-		m = r.getModel()
+	if res == solver.Sat && wantModel {
+		m = r.getModel(r.sp)
 	}
 	r.sp.Send("(pop 1)")
+	if res != solver.Unknown {
+		return m, res
+	}
+	return r.freshQuery(extra, wantModel)
+}
+
+func (r *Run) freshQuery(extra *sym.Term, wantModel bool) (map[string]uint64, solver.Result) {
+	sp, err := solver.Start(r.ex.Opt.SolverKind, r.ex.Opt.TimeoutMs)
+	if err != nil {
+		return nil, solver.Unknown
+	}
+	defer func() {
+		r.ex.mu.Lock()
+		r.ex.Solver.Queries += sp.Stats.Queries
+		r.ex.Solver.Sat += sp.Stats.Sat
+		r.ex.Solver.Unsat += sp.Stats.Unsat
+		r.ex.Solver.Unknown += sp.Stats.Unknown
+		r.ex.Solver.Seconds += sp.Stats.Seconds
+		r.ex.FreshQueries++
+		if sp.Stats.MaxQuery > r.ex.Solver.MaxQuery {
+			r.ex.Solver.MaxQuery = sp.Stats.MaxQuery
+		}
+		r.ex.mu.Unlock()
+		sp.Close()
+	}()
+	// definitions in creation order (arguments precede users)
+	ids := make([]int, 0, len(r.defined))
+	for id := range r.defined {
+		ids = append(ids, id)
+	}
+	sort.Ints(ids)
+	for _, id := range ids {
+		if d := r.in.ctx.TermByID(id).Def(); d != "" {
+			sp.Send(d)
+		}
+	}
+	for _, t := range r.pc {
+		sp.Send("(assert " + t.SMTName() + ")")
+	}
+	sp.Send("(assert " + extra.SMTName() + ")")
+	res := sp.CheckSat()
+	var m map[string]uint64
+	if res == solver.Sat && wantModel {
+		m = r.getModel(sp)
+	}
+	if res == solver.Unknown && sp.ErrMsg != "" {
+		r.sp.ErrMsg = sp.ErrMsg
+	}
 	return m, res
 }
 
-func (r *Run) getModel() map[string]uint64 {
+func (r *Run) getModel(sp *solver.Proc) map[string]uint64 {
 	var names []string
 	for _, v := range r.in.ctx.Vars {
 		if r.defined[v.ID] {
@@ -395,7 +475,7 @@ func (r *Run) getModel() map[string]uint64 {
 	if len(names) == 0 {
 		return map[string]uint64{}
 	}
-	m, err := r.sp.GetValues(names)
+	m, err := sp.GetValues(names)
 	if err != nil {
 		panic(&runAbort{kind: "solver", msg: "get-value failed: " + err.Error()})
 	}
@@ -640,6 +720,45 @@ func (r *Run) Assert(c *sym.Term, label string, site ssa.Instruction) {
 		}
 	}
 	r.asserts = append(r.asserts, rec)
+}
+
+// AssertEach discharges a conjunction of named clauses: the conjunction is
+// tried first; only if it is not proved are the clauses decided one by one
+// (so that a counterexample names the clause that fails).
+func (r *Run) AssertEach(label string, conds []*sym.Term, names []string, site ssa.Instruction) {
+	if !r.ex.Opt.labelSelected(label) {
+		return
+	}
+	c := r.in.ctx
+	conj := c.And(conds...)
+	if conj.IsTrue() {
+		r.asserts = append(r.asserts, AssertRec{Label: label, Site: r.in.siteStr(site), Verdict: "trivially-true"})
+		return
+	}
+	if r.replaying() {
+		d := r.prefix[r.pos]
+		if d.Kind != 'e' {
+			panic(fmt.Sprintf("replay divergence at %d: want assert-each, prefix has %c", r.pos, d.Kind))
+		}
+		r.record(d)
+		if d.Val == 0 {
+			r.asserts = append(r.asserts, AssertRec{Label: label, Site: r.in.siteStr(site), Verdict: "replayed"})
+			return
+		}
+	} else {
+		if !conj.IsFalse() && r.check(c.Not(conj)) == solver.Unsat {
+			r.record(Decision{'e', 0})
+			r.asserts = append(r.asserts, AssertRec{Label: label, Site: r.in.siteStr(site), Verdict: "proved"})
+			return
+		}
+		r.record(Decision{'e', 1})
+	}
+	for i, cond := range conds {
+		if cond.IsTrue() {
+			continue
+		}
+		r.Assert(cond, label+"@"+names[i], site)
+	}
 }
 
 func (r *Run) inputsWithModel(m map[string]uint64) []InputRec {
